@@ -44,6 +44,18 @@ def run(ck, prop, tier, seed, replay):
     cases = envcheck.run_harness(ck, "mem", runs)
     if cases is None:
         return None
+    if prop == "C11" and not replay:
+        # "gone on Close" also after a Close that a failing primitive interrupted: the faulted histories of C12, judged here by that clause alone
+        fcases = envcheck.run_harness(ck, "mem", [["-seed", str(seed + 3), "-n", "600" if tier == "quick" else "6000", "-x", "faults"]])
+        if fcases is None:
+            return None
+        gone = [c for c in fcases if any("still mapped" in v for v in c.get("viol") or [])]
+        ck.oblige(not gone, "a Close that reports success leaves nothing mapped, whatever failed before it (%d faulted histories)" % len(fcases), json.dumps(gone[:1])[:2000])
+        ck.cov["faulted_histories_judged_for_gone_on_close"] = len(fcases)
+        if gone:
+            g = dict(gone[0])
+            g["viol"] = [v for v in g["viol"] if "still mapped" in v]
+            ck.violation(ck.replay_file("impl", {"what": g["viol"], "Case": g}))
     viol = [c for c in cases if c.get("viol")]
     # the model tracks one live secret: compare protectedmemory cases (failed creations are compared on their first op only)
     cmp_cases = []
@@ -71,7 +83,7 @@ def run(ck, prop, tier, seed, replay):
                 + "; non-trivial = distinct sequence with a fault plan or >= 3 successful operations",
         "close_while_reading_cases": sum(1 for c in cases if any(o["k"] == "withclose" for o in c["ops"])),
         "implementations": {k: sum(1 for c in cases if c["impl"] == k) for k in ("protectedmemory", "memguard")},
-        "traces_validated_against_impl": len(cmp_cases) - len(bad), "samples": [cases[0], cases[2]],
+        "traces_validated_against_impl": len(cmp_cases) - len(bad), "samples": cases[:1] + cases[2:3],
     })
     ck.cov["trusted_base"] += ["kernel effects of mmap/mlock/madvise/mprotect/munmap and awnumar/memcall, awnumar/memguard internals are modelled by a page record; "
                                "the harness interposes on memcall with a shadow page table (for memguard only Protect goes through it)",
